@@ -430,4 +430,4 @@ static bool replay(const std::string &text) {
     run_case(c);
     return vp::stats().failures.empty();
 }
-int main(int argc, char **argv) { return vp::main_(argc, argv, {run, replay}); }
+VP_MAIN(run, replay)
